@@ -7,6 +7,7 @@ import OpdaProofs.RectVolume
 import OpdaProofs.RectBand
 import OpdaProofs.RectPIT
 import OpdaProofs.OrderStatBeta
+import OpdaProofs.LdStat
 /-!
 # C01 — CDF confidence bands attain their nominal simultaneous coverage  (partial)
 
@@ -38,13 +39,28 @@ What is proved:
 What is evaluated on every run: `coverage` in exact ℚ on the level tables read off the code's output (dkw `≥ c`,
 ks `= c ± 1e-12`, ld inside the stated Beta interval).  Steck's determinant (`OpdaModel/Steck.lean`, identity cited,
 not proved) is no longer in the trusted base: it is evaluated alongside and must give the same rational.
+* **the simulated ld statistic has a continuous distribution function** (`OpdaProofs/LdStat.lean`): for `n ≥ 1` and any
+  functions `c i` with finite (or just Lebesgue-null) level sets in `[0,1]`, `T = max_i c_i(U₍ᵢ₎)` has no atoms under `n`
+  independent uniforms (`ld_statistic_no_atoms`), so for measurable `c i` its law is a probability measure with continuous
+  distribution function (`ld_statistic_cdf_continuous`), that function being the coverage of the band at the critical
+  value (`ld_law_cdf_is_band_coverage`).  The equal-tailed coverage function `2·|1/2 − G x|` of a `G` strictly increasing
+  on `[0,1]` has level sets of at most two points (`equal_tailed_level_sets`); C15's Beta(a,b) distribution function is
+  strictly increasing on `[0,1]` (`beta_cdf_strictly_increasing`); hence for `ld_equal_tailed` the Beta law of the
+  coverage of a simulated order statistic and the bracket for the interpolated quantile hold with NO continuity
+  hypothesis (`ld_equal_tailed_critical_value_coverage_is_beta`,
+  `ld_equal_tailed_interpolated_critical_value_between_betas`).  For `ld_highest_density` the same is proved for every
+  measurable family with finite level sets (`ld_critical_value_coverage_is_beta_of_finite_level_sets`), e.g. every
+  family strictly decreasing up to a point and strictly increasing after it (`v_shaped_level_sets`); that the
+  highest-density coverage function has this shape is an explicit hypothesis there, not proved (the function is not
+  defined in Lean).
 Still cited / not formalised: DKW–Massart, the Kolmogorov–Smirnov law inside scipy.  For the ld methods what remains
-outside Lean is (i) that the simulated statistic `max_i cov_i(U₍ᵢ₎)` has a continuous distribution function (the
-hypothesis `Continuous (cdfOf ν)` of the Beta theorems, instantiated with the law `ν` of the statistic), (ii) that the
-code's `np.quantile(ts, confidence)` is the interpolated order statistic the theorem speaks about, and (iii) the
-numerical Beta quantiles (`scipy.stats.beta.ppf`) the harness uses for its acceptance window.  (The probability integral
-transform is no longer cited: it is `pit_map` / `pit_product`; the Beta law of an order statistic is no longer cited:
-it is `uniform_order_statistic_is_beta` / `simulated_critical_value_coverage_is_beta`.)
+outside Lean is (i) for `ld_highest_density` only: that the coverage functions have finite level sets in `[0,1]`
+(for `ld_equal_tailed` the continuity of the statistic's distribution function is now a theorem), (ii) that the
+code's `np.quantile(ts, confidence)` is the interpolated order statistic the theorem speaks about, (iii) the
+numerical Beta quantiles (`scipy.stats.beta.ppf`) the harness uses for its acceptance window, and (iv) that the code's
+float coverage functions (`scipy.stats.beta.cdf`, bisection) realise the real functions the theorem is about.  (The
+probability integral transform is no longer cited: it is `pit_map` / `pit_product`; the Beta law of an order statistic
+is no longer cited: it is `uniform_order_statistic_is_beta` / `simulated_critical_value_coverage_is_beta`.)
 -/
 namespace Opda.Props.C01
 open Opda.Band
@@ -389,6 +405,149 @@ example : (Measure.pi fun _ : Fin 2 => (volume : Measure ℝ).restrict (Set.Icc 
   norm_num [Finset.sum_Icc_succ_top, Nat.choose]
 
 end beta
+
+/-! ### ld methods: the simulated statistic has a continuous distribution function -/
+section ldstat
+open Opda.RectProb Opda.RectProbP MeasureTheory Opda.BetaCheck Opda.BetaBinom Opda.LdStat
+
+/-- the simulated statistic: `ldStat c u = max_i c_i(u₍ᵢ₎)` over the `n ≥ 1` order statistics of `u` -/
+theorem ldStat_spec (n : ℕ) [NeZero n] (c : Fin n → ℝ → ℝ) (u : Fin n → ℝ) :
+    ldStat c u = Finset.univ.sup' Finset.univ_nonempty fun i => c i (orderStat u i) := rfl
+
+/-- `T ≤ t` iff every `cov_i(U₍ᵢ₎) ≤ t` — the right-hand side of `ld_box_iff_stat` -/
+theorem ld_statistic_le_iff (n : ℕ) [NeZero n] (c : Fin n → ℝ → ℝ) (u : Fin n → ℝ) (t : ℝ) :
+    ldStat c u ≤ t ↔ ∀ i, c i (orderStat u i) ≤ t := ldStat_le_iff c u t
+
+/-- its law under `n` independent uniforms on `[0,1]` -/
+theorem ldLaw_spec (n : ℕ) [NeZero n] (c : Fin n → ℝ → ℝ) :
+    ldLaw c = (Measure.pi fun _ : Fin n => (volume : Measure ℝ).restrict (Set.Icc 0 1)).map (ldStat c) := rfl
+
+/-- **the simulated statistic has no atoms**: let `c i : ℝ → ℝ` (`i < n`, `n ≥ 1`) be any functions whose level sets inside
+`[0,1]` are finite.  Under the law of `n` independent uniforms on `[0,1]`, `P[max_i c_i(U₍ᵢ₎) = t] = 0` for every `t`.
+Proof: `T(u) = t` forces some `c_i(u₍ᵢ₎) = t`, so some coordinate `u_j = u₍ᵢ₎` lies outside `[0,1]` or in one of the `n`
+finite level sets — a null set for the uniform law of that coordinate (`Measure.pi_eval_preimage_null`). -/
+theorem ld_statistic_no_atoms (n : ℕ) [NeZero n] (c : Fin n → ℝ → ℝ)
+    (hlev : ∀ i t, {x | x ∈ Set.Icc (0:ℝ) 1 ∧ c i x = t}.Finite) (t : ℝ) :
+    (Measure.pi fun _ : Fin n => (volume : Measure ℝ).restrict (Set.Icc 0 1)) {u | ldStat c u = t} = 0 :=
+  Opda.LdStat.ldStat_no_atoms c hlev t
+
+/-- the same under the weaker hypothesis that the level sets inside `[0,1]` are Lebesgue-null (e.g. countable) -/
+theorem ld_statistic_no_atoms_of_null_level_sets (n : ℕ) [NeZero n] (c : Fin n → ℝ → ℝ)
+    (hlev : ∀ i t, (volume : Measure ℝ) {x | x ∈ Set.Icc (0:ℝ) 1 ∧ c i x = t} = 0) (t : ℝ) :
+    (Measure.pi fun _ : Fin n => (volume : Measure ℝ).restrict (Set.Icc 0 1)) {u | ldStat c u = t} = 0 :=
+  Opda.LdStat.ldStat_no_atoms_of_null c hlev t
+
+/-- for measurable `c i` the law of the statistic is a probability measure on `ℝ` … -/
+theorem ld_law_is_probability_measure (n : ℕ) [NeZero n] (c : Fin n → ℝ → ℝ) (hc : ∀ i, Measurable (c i)) :
+    IsProbabilityMeasure (ldLaw c) := ldLaw_isProbabilityMeasure hc
+
+/-- … whose distribution function at `t` is `P[cov_i(U₍ᵢ₎) ≤ t ∀ i]` — by `ld_box_iff_stat` the probability that the
+uniform order statistics pass through all pointwise intervals at critical value `t`, i.e. the coverage of the ld band
+with that critical value … -/
+theorem ld_law_cdf_is_band_coverage (n : ℕ) [NeZero n] (c : Fin n → ℝ → ℝ) (hc : ∀ i, Measurable (c i)) (t : ℝ) :
+    cdfOf (ldLaw c) t
+      = ((Measure.pi fun _ : Fin n => (volume : Measure ℝ).restrict (Set.Icc 0 1))
+          {u | ∀ i, c i (orderStat u i) ≤ t}).toReal := ldLaw_cdf hc t
+
+/-- … and **continuous** — the hypothesis `hF` of the Beta-law theorems above, for every family of measurable coverage
+functions with finite level sets in `[0,1]`. -/
+theorem ld_statistic_cdf_continuous (n : ℕ) [NeZero n] (c : Fin n → ℝ → ℝ) (hc : ∀ i, Measurable (c i))
+    (hlev : ∀ i t, {x | x ∈ Set.Icc (0:ℝ) 1 ∧ c i x = t}.Finite) :
+    Continuous (cdfOf (ldLaw c)) := ldLaw_cdf_continuous hc hlev
+
+/-- the equal-tailed coverage function of C15 (`C15.equal_tailed`: `x ∈ I(c) ↔ etCov G x ≤ c`) -/
+theorem etCov_spec (G : ℝ → ℝ) (x : ℝ) : etCov G x = 2 * |1 / 2 - G x| := rfl
+
+/-- **equal-tailed level sets**: for `G` strictly increasing on `[0,1]`, `{x ∈ [0,1] | 2·|1/2 − G x| = t}` has at most two
+points (`G x = 1/2 ∓ t/2`) -/
+theorem equal_tailed_level_sets (G : ℝ → ℝ) (hG : StrictMonoOn G (Set.Icc 0 1)) (t : ℝ) :
+    {x | x ∈ Set.Icc (0:ℝ) 1 ∧ etCov G x = t}.Finite ∧ {x | x ∈ Set.Icc (0:ℝ) 1 ∧ etCov G x = t}.encard ≤ 2 :=
+  ⟨etCov_level_finite hG t, etCov_level_card_le_two hG t⟩
+
+/-- **equal-tailed instance**: any measurable `G i` strictly increasing on `[0,1]` -/
+theorem ld_equal_tailed_statistic_cdf_continuous (n : ℕ) [NeZero n] (G : Fin n → ℝ → ℝ) (hm : ∀ i, Measurable (G i))
+    (hG : ∀ i, StrictMonoOn (G i) (Set.Icc 0 1)) :
+    Continuous (cdfOf (ldLaw fun i => etCov (G i))) := etLaw_cdf_continuous hm hG
+
+/-- the Beta(a,b) distribution function of C15 (`G a b`, the binomial tail polynomial) is strictly increasing on `[0,1]`
+for `a, b ≥ 1` and continuous -/
+theorem beta_cdf_strictly_increasing (a b : ℕ) (ha : 0 < a) (hb : 0 < b) :
+    StrictMonoOn (G a b) (Set.Icc 0 1) ∧ Continuous (G a b) := ⟨G_strictMonoOn a b ha hb, continuous_G a b⟩
+
+/-- the coverage functions of `ld_equal_tailed`: `betaEtCov n i x = 2·|1/2 − BetaCDF(i+1, n−i)(x)|`, `i` 0-based -/
+theorem betaEtCov_spec (n : ℕ) (i : Fin n) (x : ℝ) :
+    betaEtCov n i x = 2 * |1 / 2 - G (i.val + 1) (n - i.val) x| := rfl
+
+/-- **the statistic of `ld_equal_tailed` has a continuous distribution function**, for every `n ≥ 1`; no hypothesis left -/
+theorem ld_equal_tailed_cdf_continuous (n : ℕ) [NeZero n] : Continuous (cdfOf (ldLaw (betaEtCov n))) :=
+  betaEt_cdf_continuous n
+
+/-- **`simulated_critical_value_coverage_is_beta` without the continuity hypothesis, for `ld_equal_tailed`**: let `ν` be
+the law of `T = max_i 2·|1/2 − BetaCDF(i+1, n−i)(U₍ᵢ₎)|` for `n ≥ 1` independent uniforms and `F` its distribution function
+(`F t` = coverage of the band with critical value `t`, `ld_law_cdf_is_band_coverage`).  For `N` independent draws `T₁..T_N`
+of the statistic and `k : Fin N`, `P[F(T₍ₖ₎) ≤ t] = ∫₀ᵗ betaPDF(k+1, N−k)` for `t ∈ [0,1]`.
+Still outside: that the code's floats realise these real functions, and `np.quantile` (next theorem). -/
+theorem ld_equal_tailed_critical_value_coverage_is_beta (n : ℕ) [NeZero n] (N : ℕ) (k : Fin N) (t : ℝ)
+    (ht0 : 0 ≤ t) (ht1 : t ≤ 1) :
+    (Measure.pi fun _ : Fin N => ldLaw (betaEtCov n)) {y | cdfOf (ldLaw (betaEtCov n)) (orderStat y k) ≤ t}
+      = ENNReal.ofReal (∫ s in (0:ℝ)..t,
+          (betaNorm (k.val + 1) (N - k.val) : ℝ) * (s ^ k.val * (1 - s) ^ (N - 1 - k.val))) :=
+  ld_coverage_beta (betaEt_measurable n) (betaEt_level_null n) k ht0 ht1
+
+/-- … and the interpolated quantile (`interpolated_critical_value_coverage_between_betas`) for `ld_equal_tailed`,
+unconditionally -/
+theorem ld_equal_tailed_interpolated_critical_value_between_betas (n : ℕ) [NeZero n] (N : ℕ) (k k' : Fin N)
+    (hkk : k ≤ k') (lam : ℝ) (h0 : 0 ≤ lam) (h1 : lam ≤ 1) (t : ℝ) (ht0 : 0 ≤ t) (ht1 : t ≤ 1) :
+    ENNReal.ofReal (G (k'.val + 1) (N - k'.val) t)
+        ≤ (Measure.pi fun _ : Fin N => ldLaw (betaEtCov n))
+            {y | cdfOf (ldLaw (betaEtCov n)) (orderStat y k + lam * (orderStat y k' - orderStat y k)) ≤ t}
+      ∧ (Measure.pi fun _ : Fin N => ldLaw (betaEtCov n))
+            {y | cdfOf (ldLaw (betaEtCov n)) (orderStat y k + lam * (orderStat y k' - orderStat y k)) ≤ t}
+        ≤ ENNReal.ofReal (G (k.val + 1) (N - k.val) t) :=
+  ld_interpolated_between_betas (betaEt_measurable n) (betaEt_level_null n) k k' hkk h0 h1 ht0 ht1
+
+/-- **any family with finite level sets — the form that covers `ld_highest_density`**: the Beta law of the coverage of a
+simulated order statistic for every family of measurable coverage functions with finite level sets in `[0,1]`.  For the
+highest-density family (coverage of the smallest highest-density interval containing `x`) the finiteness is the
+hypothesis `hlev`; it is NOT proved here (the function is not defined in Lean; `C15.hd_level_set` gives the level-set
+structure of the *density*, from which the coverage function is strictly decreasing left of the mode and strictly
+increasing right of it — see `v_shaped_level_sets`). -/
+theorem ld_critical_value_coverage_is_beta_of_finite_level_sets (n : ℕ) [NeZero n] (c : Fin n → ℝ → ℝ)
+    (hc : ∀ i, Measurable (c i)) (hlev : ∀ i t, {x | x ∈ Set.Icc (0:ℝ) 1 ∧ c i x = t}.Finite)
+    (N : ℕ) (k : Fin N) (t : ℝ) (ht0 : 0 ≤ t) (ht1 : t ≤ 1) :
+    (Measure.pi fun _ : Fin N => ldLaw c) {y | cdfOf (ldLaw c) (orderStat y k) ≤ t}
+      = ENNReal.ofReal (∫ s in (0:ℝ)..t,
+          (betaNorm (k.val + 1) (N - k.val) : ℝ) * (s ^ k.val * (1 - s) ^ (N - 1 - k.val))) :=
+  ld_coverage_beta hc (fun i t => (hlev i t).measure_zero _) k ht0 ht1
+
+/-- a function strictly decreasing on `[0,m]` and strictly increasing on `[m,1]` (the shape of both coverage functions:
+about the median for equal-tailed, about the mode for highest-density) has finite level sets in `[0,1]` -/
+theorem v_shaped_level_sets (c : ℝ → ℝ) (m : ℝ) (hl : StrictAntiOn c (Set.Icc 0 m)) (hr : StrictMonoOn c (Set.Icc m 1))
+    (t : ℝ) : {x | x ∈ Set.Icc (0:ℝ) 1 ∧ c x = t}.Finite := vShape_level_finite hl hr t
+
+/-- hence a continuous distribution function for every measurable V-shaped family -/
+theorem ld_v_shaped_statistic_cdf_continuous (n : ℕ) [NeZero n] (c : Fin n → ℝ → ℝ) (hc : ∀ i, Measurable (c i))
+    (m : Fin n → ℝ) (hl : ∀ i, StrictAntiOn (c i) (Set.Icc 0 (m i))) (hr : ∀ i, StrictMonoOn (c i) (Set.Icc (m i) 1)) :
+    Continuous (cdfOf (ldLaw c)) := vShapeLaw_cdf_continuous hc m hl hr
+
+/-- non-vacuity: the hypotheses of the general theorems hold for the equal-tailed family at `n = 3` -/
+example : ∃ c : Fin 3 → ℝ → ℝ, (∀ i, Measurable (c i)) ∧ ∀ i t, {x | x ∈ Set.Icc (0:ℝ) 1 ∧ c i x = t}.Finite :=
+  ⟨betaEtCov 3, betaEt_measurable 3, betaEt_level_finite 3⟩
+
+/-- non-vacuity of the V-shape hypotheses: `x ↦ |x − 1/2|` about `m = 1/2` -/
+example : StrictAntiOn (fun x : ℝ => |x - 1 / 2|) (Set.Icc 0 (1 / 2))
+    ∧ StrictMonoOn (fun x : ℝ => |x - 1 / 2|) (Set.Icc (1 / 2) 1) := by
+  constructor
+  · intro x hx y hy hxy
+    simp only
+    rw [abs_of_nonpos (show x - 1 / 2 ≤ 0 by linarith [hx.2]), abs_of_nonpos (show y - 1 / 2 ≤ 0 by linarith [hy.2])]
+    linarith
+  · intro x hx y hy hxy
+    simp only
+    rw [abs_of_nonneg (show 0 ≤ x - 1 / 2 by linarith [hx.1]), abs_of_nonneg (show 0 ≤ y - 1 / 2 by linarith [hy.1])]
+    linarith
+
+end ldstat
 
 end Opda.Props.C01
 
